@@ -86,7 +86,9 @@ def run(ctx, selftest=False):
     ctx.model_check("GaussMC", "MC_Gauss.cfg", coverage=True)
     S = structs(ctx, quick)
     rnd = random.Random(ctx.seed * 92821 + 1)
-    cases = make_cases(ctx, S, rnd, 320 if quick else len(S), FAM)
+    cases = make_cases(ctx, S, rnd, 200 if quick else len(S), FAM)
+    if quick:
+        cases += make_cases(ctx, S, rnd, 120, FAM, units_fn=gd.random_units, prefix="u")
     if not quick:
         cases += make_cases(ctx, S, rnd, len(S), FAM, units_fn=gd.random_units, prefix="u")
     ctx.exhaustive = not quick
